@@ -101,7 +101,7 @@ theorem frameHeader_length (H : Bytes → Bytes) (hH : ∀ x, (H x).length = 32)
 /-- **frame_roundtrip.** A well-formed frame at the head of a reader is read back exactly: same
 `dataBytes`, same payload, the reader advanced to the byte after the frame. -/
 theorem readFrame_frame (H : Bytes → Bytes) (hH : ∀ x, (H x).length = 32) (j m : Nat) (p rest : Bytes)
-    (hj : j < 18446744073709551616) (hm1 : 1 ≤ m) (hm : m < 4294967296)
+    (hm1 : 1 ≤ m) (hm : m < 4294967296)
     (hp1 : 1 ≤ p.length) (hp : p.length < 4294967296) :
     readFrame H j (frame H j m p ++ rest) = .ok m p rest := by
   have hhl := hH p
@@ -129,11 +129,11 @@ theorem readFrame_frame (H : Bytes → Bytes) (hH : ∀ x, (H x).length = 32) (j
       = p ++ rest := by
     rw [show frameHeaderSize = 16 + 32 from rfl, ← List.drop_drop, d16, drop_append_len _ _ _ hhl]
   rw [t8, d8, d12, d16, d48, take_append_len _ _ _ l4a, take_append_len _ _ _ l4b, take_append_len _ _ _ hhl]
-  have v1 : fromBE (be64 j) = j := fromBE_beN_of_lt 8 j (by omega)
+  have v1 : fromBE (be64 j) = j % 18446744073709551616 := fromBE_beN 8 j
   have v2 : fromBE (be32 m) = m := fromBE_beN_of_lt 4 m (by omega)
   have v3 : fromBE (be32 p.length) = p.length := fromBE_beN_of_lt 4 _ (by omega)
   rw [v1, v2, v3]
-  have c1 : ¬ (m < 1 ∨ p.length < 1 ∨ j ≠ j) := by omega
+  have c1 : ¬ (m < 1 ∨ p.length < 1 ∨ j % 18446744073709551616 ≠ j % 18446744073709551616) := by omega
   have c2 : ¬ (p ++ rest).length < p.length := by simp
   simp only [c1, c2, if_false]
   rw [take_append_len _ _ _ rfl, drop_append_len _ _ _ rfl]
@@ -141,5 +141,259 @@ theorem readFrame_frame (H : Bytes → Bytes) (hH : ∀ x, (H x).length = 32) (j
 
 theorem readFrame_nil (H : Bytes → Bytes) (j : Nat) : readFrame H j [] = .eof := by
   simp [readFrame, frameHeaderSize]
+
+/-! ## intact shards read back as the original -/
+
+theorem zip_replicate_false_map (hacc : List Bytes) :
+    ((List.replicate hacc.length false).zip hacc).map (fun (h, s) => if h then some s else none)
+      = List.replicate hacc.length (none : Option Bytes) := by
+  induction hacc with
+  | nil => rfl
+  | cons a t ih => simp [List.replicate_succ, ih]
+
+theorem range_map_getD {α : Type} (l : List α) (d : α) : (List.range l.length).map (fun k => l.getD k d) = l := by
+  apply List.ext_getElem
+  · simp
+  · intro i h1 h2
+    simp [List.getD_eq_getElem?_getD, List.getElem?_eq_getElem h2]
+
+theorem stripeShards_spec (c : Cfg) (code : Code) (H : Bytes → Bytes) (wf : WF c code H) (x : Bytes) :
+    (stripeShards c code x).length = c.n ∧ ∀ s ∈ stripeShards c code x, s.length = shardLen c.d x.length := by
+  have hl := stripe_length c.d x
+  have hs := stripe_shard_length c.d x
+  obtain ⟨hp1, hp2⟩ := wf.parity_len (stripe c.d x) (shardLen c.d x.length) hl hs
+  refine ⟨by simp [stripeShards, hl, hp1, Cfg.n], ?_⟩
+  intro s hs'
+  simp only [stripeShards, List.mem_append] at hs'
+  rcases hs' with h | h
+  · exact hs s h
+  · exact hp2 s h
+
+theorem shardLen_le (d m : Nat) (hd : 1 ≤ d) (hm : 1 ≤ m) : shardLen d m ≤ m := by
+  unfold shardLen
+  apply Nat.div_le_of_le_mul
+  have : m ≤ d * m := Nat.le_mul_of_pos_left m hd
+  have : d * m = m + (d - 1) * m := by
+    have hd' : d = 1 + (d - 1) := by omega
+    calc d * m = (1 + (d - 1)) * m := by rw [← hd']
+      _ = m + (d - 1) * m := by rw [Nat.add_mul, Nat.one_mul]
+  have h2 : d - 1 ≤ (d - 1) * m := Nat.le_mul_of_pos_right _ hm
+  omega
+
+/-- the readers of all shards, positioned at stripe `j`, with the stripes `xs` still to come -/
+def readersAt (c : Cfg) (code : Code) (H : Bytes → Bytes) (j : Nat) (xs : List Bytes) : List (Option Bytes) :=
+  (List.range c.n).map fun k => some (framesFrom c code H k j xs)
+
+theorem loop_intact (c : Cfg) (code : Code) (H : Bytes → Bytes) (wf : WF c code H) (fix : Fix)
+    (hacc : List Bytes) (hl : hacc.length = c.n) :
+    ∀ (xs : List Bytes) (j fuel : Nat) (acc : Bytes),
+      (∀ x ∈ xs, x ≠ [] ∧ x.length ≤ c.d * c.stripe) → xs.length < fuel →
+      loop c code H fix (List.replicate c.n false) fuel j (readersAt c code H j xs) acc hacc
+        = ⟨acc ++ xs.flatten, false, List.replicate c.n none⟩ := by
+  have hn1 : 1 ≤ c.n := by have := wf.d_pos; simp [Cfg.n]; omega
+  intro xs
+  induction xs with
+  | nil =>
+    intro j fuel acc _ hf
+    obtain ⟨f, rfl⟩ : ∃ f, fuel = f + 1 := ⟨fuel - 1, by simp at hf; omega⟩
+    have hfrs : (readersAt c code H j []).map (Option.map (readFrame H j))
+        = (List.range c.n).map fun _ => some FrameRead.eof := by
+      simp [readersAt, framesFrom, readFrame_nil]
+    simp only [loop, hfrs]
+    have hany : (List.map (fun _ => some FrameRead.eof) (List.range c.n)).any FrameRead.seen = false := by
+      simp [FrameRead.seen]
+    simp only [hany, Bool.not_false, if_true, List.flatten_nil, List.append_nil]
+    rw [← hl, zip_replicate_false_map]
+  | cons x xs ih =>
+    intro j fuel acc hxs hf
+    obtain ⟨f, rfl⟩ : ∃ f, fuel = f + 1 := ⟨fuel - 1, by simp at hf; omega⟩
+    have hx := hxs x List.mem_cons_self
+    have hx1 : 1 ≤ x.length := by
+      cases x with
+      | nil => exact absurd rfl hx.1
+      | cons _ _ => simp
+    obtain ⟨shl, shs⟩ := stripeShards_spec c code H wf x
+    have hL1 : 1 ≤ shardLen c.d x.length := shardLen_pos c.d x.length wf.d_pos hx1
+    have hLle : shardLen c.d x.length ≤ x.length := shardLen_le c.d x.length wf.d_pos hx1
+    have hxlt : x.length < 4294967296 := by have := wf.stripeData_lt; omega
+    -- every reader delivers its frame of stripe j
+    have hfrs : (readersAt c code H j (x :: xs)).map (Option.map (readFrame H j))
+        = (List.range c.n).map fun k => some (FrameRead.ok x.length ((stripeShards c code x).getD k [])
+            (framesFrom c code H k (j + 1) xs)) := by
+      simp only [readersAt, List.map_map]
+      apply List.map_congr_left
+      intro k hk
+      have hk' : k < (stripeShards c code x).length := by rw [shl]; exact List.mem_range.1 hk
+      have hlen : ((stripeShards c code x).getD k []).length = shardLen c.d x.length := by
+        apply shs
+        rw [List.getD_eq_getElem?_getD, List.getElem?_eq_getElem hk']
+        exact List.getElem_mem hk'
+      simp only [Function.comp, framesFrom, Option.map_some]
+      rw [readFrame_frame H wf.hash_len j x.length _ _ hx1 hxlt (by omega) (by omega)]
+    have hshards : ((List.range c.n).map fun k => some (FrameRead.ok x.length ((stripeShards c code x).getD k [])
+            (framesFrom c code H k (j + 1) xs))).map FrameRead.payload = (stripeShards c code x).map some := by
+      rw [List.map_map]
+      conv => rhs; rw [← range_map_getD (stripeShards c code x) []]
+      rw [List.map_map, shl]
+      rfl
+    have hrest : ((List.range c.n).map fun k => some (FrameRead.ok x.length ((stripeShards c code x).getD k [])
+            (framesFrom c code H k (j + 1) xs))).map FrameRead.rest = readersAt c code H (j + 1) xs := by
+      rw [List.map_map]; rfl
+    have hany : ((List.range c.n).map fun k => some (FrameRead.ok x.length ((stripeShards c code x).getD k [])
+            (framesFrom c code H k (j + 1) xs))).any FrameRead.seen = true := by
+      rw [List.any_eq_true]
+      exact ⟨_, List.mem_map.2 ⟨0, List.mem_range.2 (by omega), rfl⟩, rfl⟩
+    have hdb : (((List.range c.n).map fun k => some (FrameRead.ok x.length ((stripeShards c code x).getD k [])
+            (framesFrom c code H k (j + 1) xs))).findSome? FrameRead.dataBytes).getD 0 = x.length := by
+      obtain ⟨m, hm⟩ : ∃ m, c.n = m + 1 := ⟨c.n - 1, by omega⟩
+      rw [hm, List.range_succ_eq_map, List.map_cons, List.findSome?_cons]
+      rfl
+    have havail : ¬ (((stripeShards c code x).map some).filter Option.isSome).length < c.d := by
+      have : ((stripeShards c code x).map some).filter Option.isSome = (stripeShards c code x).map some := by
+        apply List.filter_eq_self.2
+        intro a ha; obtain ⟨b, _, rfl⟩ := List.mem_map.1 ha; rfl
+      rw [this, List.length_map, shl]; simp [Cfg.n]
+    have hsame : sameSizes ((stripeShards c code x).map some) = true := by
+      unfold sameSizes
+      have : ((stripeShards c code x).map some).filterMap id = stripeShards c code x := by
+        simp [List.filterMap_map]
+      rw [this]
+      cases hss : stripeShards c code x with
+      | nil => rfl
+      | cons a t =>
+        simp only [List.all_eq_true, beq_iff_eq]
+        intro b hb
+        rw [shs b (by rw [hss]; exact List.mem_cons_of_mem _ hb), shs a (by rw [hss]; exact List.mem_cons_self)]
+    have hdata : dataOf c code ((stripeShards c code x).map some) = some (stripe c.d x) := by
+      unfold dataOf
+      have ht : ((stripeShards c code x).map some).take c.d = (stripe c.d x).map some := by
+        rw [← List.map_take]
+        congr 1
+        simp [stripeShards, List.take_append_of_le_length, stripe_length]
+      simp only [ht]
+      have : ((stripe c.d x).map some).all Option.isSome = true := by simp
+      simp [this, List.filterMap_map]
+    have hhacc : ((List.range hacc.length).zip hacc).map (fun (k, s) =>
+          if (List.replicate c.n false).getD k false then
+            s ++ frame H j x.length (healPayload c code fix ((stripeShards c code x).map some) (stripe c.d x) k)
+          else s) = hacc := by
+      have : ∀ k, (List.replicate c.n false).getD k false = false := by
+        intro k; simp [List.getD_eq_getElem?_getD, List.getElem?_replicate]
+        split <;> rfl
+      simp only [this, Bool.false_eq_true, if_false]
+      exact List.map_snd_zip (by simp)
+    rw [loop]
+    simp only [hfrs, hany, hshards, hrest, hdb, havail, hsame, hdata, hhacc, Bool.not_true, Bool.false_eq_true, if_false]
+    rw [unstripe_stripe c.d x wf.d_pos]
+    have := ih (j + 1) f (acc ++ x) (fun y hy => hxs y (List.mem_cons_of_mem _ hy))
+      (by simp at hf; omega)
+    rw [this]
+    simp [List.append_assoc]
+
+theorem frame_length_ge (H : Bytes → Bytes) (hH : ∀ x, (H x).length = 32) (j m : Nat) (p : Bytes) :
+    frameHeaderSize ≤ (frame H j m p).length := by
+  simp [frame, frameHeader_length H hH]
+
+theorem framesFrom_length_ge (c : Cfg) (code : Code) (H : Bytes → Bytes) (hH : ∀ x, (H x).length = 32) (k : Nat) :
+    ∀ (xs : List Bytes) (j : Nat), frameHeaderSize * xs.length ≤ (framesFrom c code H k j xs).length := by
+  intro xs
+  induction xs with
+  | nil => intro j; simp [framesFrom]
+  | cons x xs ih =>
+    intro j
+    simp only [framesFrom, List.length_append, List.length_cons]
+    have h1 := frame_length_ge H hH j x.length ((stripeShards c code x).getD k [])
+    have h2 := ih (j + 1)
+    rw [Nat.mul_succ]; omega
+
+theorem fuelFor_readersAt (c : Cfg) (code : Code) (H : Bytes → Bytes) (wf : WF c code H) (xs : List Bytes) :
+    xs.length < fuelFor (readersAt c code H 0 xs) := by
+  have hn1 : 1 ≤ c.n := by have := wf.d_pos; simp [Cfg.n]; omega
+  obtain ⟨m, hm⟩ : ∃ m, c.n = m + 1 := ⟨c.n - 1, by omega⟩
+  unfold fuelFor readersAt
+  rw [hm, List.range_succ_eq_map]
+  simp only [List.map_cons, List.map_map, Option.map_some, Option.getD_some, List.sum_cons]
+  have h0 := framesFrom_length_ge c code H wf.hash_len 0 xs 0
+  have : xs.length ≤ ((framesFrom c code H 0 0 xs).length +
+      (List.map ((fun r => (Option.map List.length r).getD 0) ∘ (fun k => some (framesFrom c code H k 0 xs)) ∘ Nat.succ)
+        (List.range m)).sum) / frameHeaderSize := by
+    rw [Nat.le_div_iff_mul_le (by decide)]
+    rw [Nat.mul_comm]; omega
+  exact Nat.lt_of_le_of_lt this (Nat.lt_add_of_pos_right (by decide))
+
+/-- **read_intact.** If every shard store returns the stream that `PutPart` wrote for the part, `GetPart`
+returns exactly the part — for every content, every `d ≥ 1`, `p` and stripe size —
+and heals nothing. -/
+theorem read_intact (c : Cfg) (code : Code) (H : Bytes → Bytes) (wf : WF c code H) (fix : Fix) (b : Bytes) :
+    read c code H fix ((List.range c.n).map fun k => some (shardStream c code H k b))
+      = .result ⟨b, false, List.replicate c.n none⟩ := by
+  have hn1 : 1 ≤ c.n := by have := wf.d_pos; simp [Cfg.n]; omega
+  have hds : 0 < c.d * c.stripe := Nat.mul_pos wf.d_pos (by have := wf.stripe_ge; omega)
+  unfold read
+  have hall : ((List.range c.n).map fun k => some (shardStream c code H k b)).all Option.isNone = false := by
+    rw [List.all_eq_false]
+    exact ⟨_, List.mem_map.2 ⟨0, List.mem_range.2 (by omega), rfl⟩, by simp⟩
+  simp only [hall, Bool.and_false, Bool.false_eq_true, if_false, List.length_map, List.length_range]
+  have hreaders : (List.zip (List.range c.n) ((List.range c.n).map fun k => some (shardStream c code H k b))).map
+        (fun (k, s) => openShard c k s) = readersAt c code H 0 (stripesOf c b) := by
+    rw [List.zip_map_right, List.map_map]
+    have : List.zip (List.range c.n) (List.range c.n) = (List.range c.n).map fun k => (k, k) := by
+      rw [List.zip_eq_zipWith, List.zipWith_self]
+    rw [this, List.map_map]
+    unfold readersAt
+    apply List.map_congr_left
+    intro k hk
+    simp only [Function.comp, Prod.map, id]
+    exact openShard_stream c code H wf k (List.mem_range.1 hk) _
+  rw [hreaders]
+  have hheal : (readersAt c code H 0 (stripesOf c b)).map Option.isNone = List.replicate c.n false := by
+    unfold readersAt
+    rw [List.map_map]
+    apply List.ext_getElem
+    · simp
+    · intro i h1 h2; simp
+  have hlen : (readersAt c code H 0 (stripesOf c b)).length = c.n := by simp [readersAt]
+  rw [hheal]
+  simp only [List.length_zip, List.length_range, List.length_map, Nat.min_self]
+  have hstr : ∀ x ∈ stripesOf c b, x ≠ [] ∧ x.length ≤ c.d * c.stripe :=
+    fun x hx => chunks_mem _ b hds x hx
+  rw [loop_intact c code H wf fix _ (by simp) (stripesOf c b) 0 _ [] hstr (fuelFor_readersAt c code H wf _)]
+  have : (stripesOf c b).flatten = b := concat_chunks _ b
+  simp [this]
+
+/-- **read_absent.** None of the shards exists. As the code is, `GetPart` does not answer not-found: it
+"heals" — writes the shard streams of the EMPTY part to every shard store — and returns an empty
+stream. With the repair it answers not-found and writes nothing. -/
+theorem read_absent (c : Cfg) (code : Code) (H : Bytes → Bytes) (fix : Fix) :
+    read c code H fix (List.replicate c.n none) =
+      if fix.notFoundWhenAllMissing then .notFound
+      else .result ⟨[], false, (List.range c.n).map fun k => some (shardStream c code H k [])⟩ := by
+  unfold read
+  have hall : (List.replicate c.n (none : Option Bytes)).all Option.isNone = true := by simp
+  by_cases hf : fix.notFoundWhenAllMissing = true
+  · simp [hf, hall]
+  · have hf' : fix.notFoundWhenAllMissing = false := by simpa using hf
+    simp only [hf', Bool.false_and, Bool.false_eq_true, if_false, List.length_replicate]
+    have hreaders : (List.zip (List.range c.n) (List.replicate c.n (none : Option Bytes))).map
+          (fun (k, s) => openShard c k s) = List.replicate c.n none := by
+      apply List.ext_getElem
+      · simp
+      · intro i h1 h2; simp [openShard]
+    rw [hreaders]
+    have hstream : ∀ k, shardStream c code H k [] = shardHeader c k := by
+      intro k; simp [shardStream, stripesOf, chunks_nil, framesFrom]
+    simp only [List.map_replicate, Option.isNone_none, List.length_replicate, hstream]
+    have hfuel : fuelFor (List.replicate c.n (none : Option Bytes)) = 2 := by
+      simp [fuelFor, frameHeaderSize]
+    rw [hfuel]
+    simp only [loop, List.map_replicate, Option.map_none]
+    have hany : (List.replicate c.n (none : Option FrameRead)).any FrameRead.seen = false := by
+      simp [FrameRead.seen]
+    simp only [hany, Bool.not_false, if_true]
+    congr 1
+    congr 1
+    apply List.ext_getElem
+    · simp
+    · intro i h1 h2; simp
 
 end Pithos.EC
